@@ -483,8 +483,8 @@ KeyRefOK(t, ref) == ref.by = "key" /\ ((t.src = "arff" \/ t.hdr # <<>>) => ref.c
 IntKeys(t) == AllKeys(t) # {} /\ \A k \in AllKeys(t) : k \in Digits
 StageOK(t, st) ==
   CASE st.op = "invalid" -> FALSE
-    [] st.op = "head" -> /\ ~t.labeled /\ t.src = "rows"
-                         /\ (IF t.kind = "dense" THEN t.hdr = <<>> /\ Len(st.names) = NCols(t)
+    [] st.op = "head" -> /\ ~t.labeled /\ t.src = "rows" /\ t.hdr = <<>>
+                         /\ (IF t.kind = "dense" THEN Len(st.names) = NCols(t)
                                                  ELSE AllKeys(t) \subseteq {st.keys[i] : i \in DOMAIN st.keys})
     [] st.op = "encode" ->
          /\ ~t.labeled
